@@ -15,9 +15,14 @@ generator; ln T = c/2 is applied; see symdom.Ctx.exp_subst), the library's while
 Quadratic TIGHTNESS, first-order condition (exp, cosh-1): with W = [w0, eps*wdir] the derivative of the returned value
 w.r.t. eps at eps = 0 (jax.jvp through the real code, stop_gradient made transparent) equals the derivative of the true
 expectation at eps = 0, which has a closed form although the expectation itself does not; with exactness: gap = o(eps).
-NOT covered (declined, see DESIGN.md): 'bound <= true expectation' for eps > 0 (exp, cosh-1) and for the
-rectified-linear link at all -- the right-hand side has no closed form; the step equality for Dx >= 2 needs
-truncated moments of a 2-d Gaussian."""
+'bound <= true expectation' (exp, cosh-1: Dx <= 2; rectified-linear: Dx = 1; one noise unit, square A): by a WITNESS.  With both
+variational parameters replaced by arbitrary positive numbers (stub on the instance) the returned value must equal E_p[g] for
+an explicit function g that is a pointwise minorant of ln p(y|x) -- by two instances of ln t <= t-1 (rectified-linear) or by
+the Jaakkola-Jordan lemma (exp, cosh-1; an axiom of the check).  The right-hand side E_p[g] has a closed form (tilted Gaussians,
+half-line moments with Phi atoms) although the true expectation has none.  A failed equality is replayed against QUADRATURE of
+the true expectation, and only lb > truth + 1e-6 is reported; otherwise the case ends inconclusive.
+NOT covered (declined, see DESIGN.md): the inequality for Dx >= 2 (rectified-linear), several noise units, A with more columns
+than rows; tightness beyond the first-order condition; the step equality for Dx >= 2 (truncated moments of a 2-d Gaussian)."""
 from fractions import Fraction
 import itertools
 import numpy as np
@@ -31,10 +36,11 @@ from ..case import Case
 PROP = "C17"
 
 BOUNDS = {
-    "quick": "zero-weight exactness and first-order tightness (exp, cosh-1): (Dx,Dy=Da,Dk) in {(1,1,1),(2,2,1),(1,2,2)}, every sign pattern of the offsets, offsets != 0, N=1 observation; step-link equality of the bound at Dx=1, Dk=1, Dy=Da in {1,2}, both weight signs; coherence: all four links; (Dy,Da,Dk) in {(1,1,1),(2,2,1),(2,2,2)} (A square) and {(1,2,1),(1,2,2),(2,3,2)} (A wide, Da>Dy); Dx<=2; N=2 points; link values arbitrary (exp, cosh-1) or on either side of the kink (step, relu)",
+    "quick": "witness-minorant validity of the bound: exp / cosh-1 (Dx,Dy) in {(1,1),(1,2),(2,1)}, rectified-linear Dx=1, Dy in {1,2}, both weight signs; zero-weight exactness and first-order tightness (exp, cosh-1): (Dx,Dy=Da,Dk) in {(1,1,1),(2,2,1),(1,2,2)}, every sign pattern of the offsets, offsets != 0, N=1 observation; step-link equality of the bound at Dx=1, Dk=1, Dy=Da in {1,2}, both weight signs; coherence: all four links; (Dy,Da,Dk) in {(1,1,1),(2,2,1),(2,2,2)} (A square) and {(1,2,1),(1,2,2),(2,3,2)} (A wide, Da>Dy); Dx<=2; N=2 points; link values arbitrary (exp, cosh-1) or on either side of the kink (step, relu)",
     "thorough": "adds Dy=Da=3 with A bound to generic rationals, Dx=3",
 }
-ASSUMPTIONS = ["claimed: the coherence clause (all links), the step-link equality for Dx=1, exactness at zero input weights (exp, cosh-1; non-zero offsets) and the first-order tightness condition d gap/d eps = 0 at eps = 0 (exp, cosh-1); declined: lb <= true expectation away from zero weights for exp / cosh-1 and everything about the rectified-linear bound (no closed-form right-hand side; the property's own oracle is adaptive quadrature)",
+ASSUMPTIONS = ["claimed: the coherence clause (all links), the step-link equality for Dx=1, exactness at zero input weights (exp, cosh-1; non-zero offsets), the first-order tightness condition d gap/d eps = 0 at eps = 0 (exp, cosh-1), and lb <= true expectation by a witness minorant (exp, cosh-1: Dx<=2; rectified-linear: Dx=1; Dk=1, square A); declined: the inequality outside those shapes, tightness beyond first order",
+               "witness clause: _get_omega_dagger / _get_omega_star are replaced on the instance by arbitrary positive numbers (the bound must be valid for every value of the variational parameters; their computation is exercised by the exactness / tightness cases); pointwise validity of the witness rests on ln t <= t-1 (rectified-linear) and on the Jaakkola-Jordan lemma phi(h) <= phi(o) + phi'(o)/(2o)(h^2-o^2) for phi = ln 2cosh(./2), ln cosh (an axiom here); a failed equality is replayed against quadrature of the true expectation and only lb > truth + 1e-6 is reported",
                "exp alias: T_k = exp(c_k/2) is an independent positive generator with ln T_k = c_k/2 applied and T_k > 1 assumed; an identity over Q(.., c_k, T_k) holds in particular at T_k = exp(c_k/2) (unsat is sound); models are replayed on the real code",
                "first-order tightness differentiates the real code with jax.jvp after replacing lax.stop_gradient by the identity in the harness process (total derivative of the returned value)"]
 
@@ -200,6 +206,239 @@ def step_equality_case(Dy, wsign, timeout=900, N=1):
     return Case(cid, PROP, cfg, declare, fn, claims, timeout=timeout)
 
 
+WITNESS_NOTE = "the returned value is not the expectation of the witness minorant (z3 sat), but no input was found where it exceeds the true expectation (quadrature) by more than 1e-6: neither confirmed nor refuted"
+
+
+def _half_line_moments(ops, phi, m, s, kmax):
+    """I_k = int_0^inf h^k N(h; m, s^2) dh, k = 0..kmax, by integration by parts (textbook recursion):
+    I_0 = Phi(m/s), I_1 = m I_0 + s phi(m/s), I_k = m I_{k-1} + (k-1) s^2 I_{k-2} (the boundary term vanishes at 0 for k >= 2)"""
+    t = m / s
+    I = [phi.Phi(t)]
+    if kmax >= 1:
+        I.append(m * I[0] + s * phi.phi(t))
+    for k in range(2, kmax + 1):
+        I.append(m * I[k - 1] + ops.c(k - 1) * s * s * I[k - 2])
+    return I
+
+
+def relu_minorant_case(Dy, wsign, timeout=900):
+    """C17, 'lb <= true expectation' for the rectified-linear link (Dx = 1, one noise unit, square A), by a WITNESS:
+    with the two variational parameters replaced by ARBITRARY positive numbers (stub of _get_omega_dagger / _get_omega_star on
+    the instance) the returned value must EQUAL E_p(x)[g(x)] for the function
+        g(x) = -1/2 |z|^2 + 1/2 z_1^2 h exp(-ln(1+o*) - (h-o*)/(1+o*)) [h>0] - 1/2 ln det AA'
+               - 1/2 (ln(1+o+) + (h-o+)/(1+o+)) [h>0] - Dy/2 ln 2pi,      z = A^-1 (y - Mx - b),  h = w x + w0,
+    which is a pointwise minorant of ln N(y; Mx+b, Sigma(x)) by two instances of ln t <= t - 1 (t = (1+h)/(1+o)).  Hence
+    lb <= E[ln p(y|x)] for every value of the variational parameters, in particular the library's.  If the equality fails the
+    replay does NOT compare with the witness but with the property's own oracle: adaptive quadrature of the true expectation;
+    only lb > truth + 1e-6 is a violation (a different valid bound would end as inconclusive, not as an alarm)."""
+    cid = f"C17/relu-bound-valid/Dx1Dy{Dy}Da{Dy}Dk1/w{'pos' if wsign > 0 else 'neg'}"
+    cfg = dict(clause="rectified-linear link: returned value never exceeds the true expected log-density (witness minorant, arbitrary variational parameters)",
+               Dx=1, Dy=Dy, Da=Dy, Dk=1, weight_sign=wsign)
+
+    def declare(b):
+        b.free("M", (1, Dy, 1)); b.free("bv", (1, Dy)); b.free("A", (1, Dy, Dy))
+        b.pos("wabs", (1, 1)); b.free("w0", (1,))
+        b.derived("W", (1, 2), lambda I, ops: np.array([[I["w0"][0], I["wabs"][0, 0] * ops.c(wsign)]], dtype=object))
+        b.spd("Sx", 1, 1); b.free("mx", (1, 1)); b.free("y", (1, Dy))
+        b.pos("omd", (1,)); b.pos("oms", (1,))
+        b.phi_slots(4)
+
+    def fn(**A):
+        from ..phi import patched_norm
+        factor, measure, pdf, conditional = gt()
+        with patched_norm():
+            c = make_het("relu", {"M": A["M"], "bv": A["bv"], "A": A["A"], "W": A["W"]})
+            c._get_omega_dagger = lambda p_x, W_i: A["omd"]
+            c._get_omega_star = lambda p_x, y, W_i, a_i: A["oms"]
+            px = pdf.GaussianPDF(Sigma=A["Sx"], mu=A["mx"])
+            return {"val": c.integrate_log_conditional_y(px, y=A["y"])}
+
+    def claims(I, O, ops):
+        if not ops.symbolic:
+            return [("GE0", "true expectation (adaptive quadrature) - returned value", np.array([_relu_truth_quad(I, Dy) - float(np.asarray(O["val"]).reshape(-1)[0])]), None)]
+        M, bb, A_ = I["M"][0], I["bv"][0], I["A"][0]
+        y = I["y"][0]
+        w0 = I["W"][0, 0]; w = I["W"][0, 1]
+        phi = ops.ctx.phi
+        m = I["mx"][0, 0]
+        sx = ops.sqrt(I["Sx"][0, 0, 0])
+        mh = w * m + w0
+        sh = I["wabs"][0, 0] * sx
+        od, os_ = I["omd"][0], I["oms"][0]
+        Ai, dA = spec.inv(ops, A_)
+        # z(h) = alpha + beta h   with x = (h - w0)/w
+        q = w0 / w
+        r0 = np.array([y[i] - bb[i] + M[i, 0] * q for i in range(Dy)], dtype=object)
+        alpha = spec.mv(Ai, r0)
+        beta = spec.mv(Ai, np.array([-(M[i, 0] / w) for i in range(Dy)], dtype=object))
+        Eh, Eh2 = mh, mh * mh + sh * sh
+        hom = ops.zero()
+        for i in range(Dy):
+            hom = hom + alpha[i] * alpha[i] + ops.c(2) * alpha[i] * beta[i] * Eh + beta[i] * beta[i] * Eh2
+        # tilted half-line moments: int_{h>0} h^k exp(-kappa h) N(h; mh, sh^2) dh = exp(-kappa mh + kappa^2 sh^2/2) I_k(mh - kappa sh^2, sh)
+        kappa = ops.one() / (ops.one() + os_)
+        C = ops.exp(-kappa * mh + kappa * kappa * sh * sh * ops.c(Fraction(1, 2)))
+        J = _half_line_moments(ops, phi, mh - kappa * sh * sh, sh, 3)
+        pref = ops.exp(os_ * kappa) * kappa        # exp(-ln(1+o*) + o*/(1+o*))
+        het = pref * C * (alpha[0] * alpha[0] * J[1] + ops.c(2) * alpha[0] * beta[0] * J[2] + beta[0] * beta[0] * J[3])
+        I0, I1 = _half_line_moments(ops, phi, mh, sh, 1)
+        ld = ops.lnabs(dA * dA) + I0 * ops.log(ops.one() + od) + (I1 - I0 * od) / (ops.one() + od)
+        want = ops.c(Fraction(-1, 2)) * (hom - het) - ops.c(Fraction(1, 2)) * ld - ops.c(Fraction(Dy, 2)) * ops.ln2pi()
+        return [("relu link: integrate_log_conditional_y = E_p[g], g a pointwise minorant of ln p(y|x) (arbitrary variational parameters)", O["val"], np.array([want], dtype=object))]
+
+    def env(ctx, rng):
+        from ..case import random_env
+        e = random_env(ctx, rng)
+        e["wabs_0_0"] = rng.choice([0.05, 0.1, 0.25, 0.5, 1.0, 1.5])      # small input weights make a wrong substitution visible
+        return e
+
+    return Case(cid, PROP, cfg, declare, fn, claims, timeout=timeout, env=env, sat_note=WITNESS_NOTE)
+
+
+def _relu_truth_quad(I, Dy):
+    """E_{N(x; m, s^2)}[ln N(y; M x + b, AA' + a_1 a_1' relu(w x + w0))] by piecewise adaptive quadrature (float replay only)"""
+    import math
+    from scipy import integrate
+    M, bb, A_ = np.asarray(I["M"][0], float), np.asarray(I["bv"][0], float), np.asarray(I["A"][0], float)
+    y = np.asarray(I["y"][0], float)
+    w0, w = float(I["W"][0, 0]), float(I["W"][0, 1])
+    m, s = float(I["mx"][0, 0]), math.sqrt(float(I["Sx"][0, 0, 0]))
+    AAt = A_ @ A_.T
+    a1 = A_[:, 0]
+
+    def f(x):
+        d = max(w * x + w0, 0.0)
+        Sg = AAt + d * np.outer(a1, a1)
+        r = y - M[:, 0] * x - bb
+        sign, ld = np.linalg.slogdet(Sg)
+        lp = -0.5 * r @ np.linalg.solve(Sg, r) - 0.5 * ld - 0.5 * Dy * math.log(2 * math.pi)
+        return lp * math.exp(-0.5 * ((x - m) / s) ** 2) / (s * math.sqrt(2 * math.pi))
+    kink = -w0 / w
+    lo, hi = m - 12 * s, m + 12 * s
+    pts = sorted(p for p in (kink, m) if lo < p < hi)
+    return integrate.quad(f, lo, hi, points=pts or None, epsabs=1e-12, epsrel=1e-11, limit=400)[0]
+
+
+def jj_minorant_case(link, Dx, Dy, timeout=1200):
+    """C17, 'lb <= true expectation' for the exp and cosh-1 links at ARBITRARY weights, by a witness (as relu_minorant_case):
+    with both variational parameters replaced by arbitrary positive numbers the returned value must equal E_p(x)[g(x)] for
+        exp:    g = -1/2|z|^2 + 1/2 z_1^2 exp(h/2 - f(o*) - f'(o*)/(2o*) (h^2-o*^2)) - 1/2 ln det AA'
+                    - 1/2 (h/2 + f(o+) + f'(o+)/(2o+) (h^2-o+^2)) - Dy/2 ln 2pi,           f(t) = ln(2 cosh(t/2))
+        cosh-1: g = -1/2|z|^2 + 1/2 z_1^2 (cosh h - 1) exp(-F(o*) - F'(o*)/(2o*) (h^2-o*^2)) - 1/2 ln det AA'
+                    - 1/2 (F(o+) + F'(o+)/(2o+) (h^2-o+^2)) - Dy/2 ln 2pi,                 F(t) = ln cosh t
+    a pointwise minorant of ln N(y; Mx+b, AA' + a_1 a_1' link(h)) by the Jaakkola-Jordan lemma  phi(h) <= phi(o) + phi'(o)/(2o) (h^2-o^2)
+    for phi in {f, F} (phi(sqrt(u)) is concave in u) -- an AXIOM of this check, like the Gaussian mass formula; z3 cannot derive it.
+    Expectations of z_1^2 exp(quadratic) are tilted-Gaussian closed forms.  On a failed equality the replay compares the returned
+    value with quadrature of the TRUE expectation (adaptive for Dx=1, Gauss-Hermite for Dx=2): only lb > truth + 1e-6 is a violation."""
+    cid = f"C17/{link}-bound-valid/Dx{Dx}Dy{Dy}Da{Dy}Dk1"
+    cfg = dict(clause=f"{link} link: returned value never exceeds the true expected log-density (witness minorant, arbitrary variational parameters, arbitrary weights)",
+               Dx=Dx, Dy=Dy, Da=Dy, Dk=1)
+
+    def declare(b):
+        b.free("M", (1, Dy, Dx)); b.free("bv", (1, Dy)); b.free("A", (1, Dy, Dy)); b.free("W", (1, Dx + 1))
+        b.spd("Sx", 1, Dx); b.free("mx", (1, Dx)); b.free("y", (1, Dy))
+        b.pos("omd", (1,)); b.pos("oms", (1,))
+        b.exp_alias("omd_0", "Td", Fraction(1, 2)); b.exp_alias("oms_0", "Ts", Fraction(1, 2))
+
+    def fn(**A):
+        factor, measure, pdf, conditional = gt()
+        c = make_het(link, {"M": A["M"], "bv": A["bv"], "A": A["A"], "W": A["W"]})
+        c._get_omega_dagger = lambda p_x, W_i: A["omd"]
+        c._get_omega_star = lambda p_x, y, W_i, a_i: A["oms"]
+        px = pdf.GaussianPDF(Sigma=A["Sx"], mu=A["mx"])
+        return {"val": c.integrate_log_conditional_y(px, y=A["y"])}
+
+    def claims(I, O, ops):
+        if not ops.symbolic:
+            return [("GE0", "true expectation (quadrature) - returned value", np.array([_smooth_truth_quad(I, link, Dx, Dy) - float(np.asarray(O["val"]).reshape(-1)[0])]), None)]
+        from .c14 import tilted
+        M, bb, A_ = I["M"][0], I["bv"][0], I["A"][0]
+        y = I["y"][0]
+        b0 = I["W"][0, 0]; w = [I["W"][0, 1 + j] for j in range(Dx)]
+        m, S = I["mx"][0], I["Sx"][0]
+        od, os_ = I["omd"][0], I["oms"][0]
+        half = ops.c(Fraction(1, 2))
+        mom = spec.Moments(ops, m, S)
+        Ai, dA = spec.inv(ops, A_)
+        res = _residual_polys(I, ops, Dx, Dy)                    # r_i(x) = y_i - b_i - (Mx)_i
+        zp = []
+        for i in range(Dy):
+            p_ = spec.p_const(Dx, ops.zero())
+            for j in range(Dy):
+                p_ = spec.p_add(p_, spec.p_scale(res[j], Ai[i, j]))
+            zp.append(p_)
+        hom = ops.zero()
+        for i in range(Dy):
+            hom = hom + mom.expect(spec.p_mul(zp[i], zp[i]))
+        hp = spec.p_affine(ops, w, b0)
+        Eh = mom.expect(hp); Eh2 = mom.expect(spec.p_mul(hp, hp))
+
+        def cosh_(t): return half * (ops.exp(t) + ops.exp(-t))
+        def tanh_(t): return (ops.exp(t) - ops.exp(-t)) / (ops.exp(t) + ops.exp(-t))
+        if link == "exp":
+            f = lambda t: ops.log(ops.c(2) * cosh_(t * half))
+            lam = lambda t: tanh_(t * half) / (ops.c(4) * t)         # f'(t)/(2t)
+        else:
+            f = lambda t: ops.log(cosh_(t))
+            lam = lambda t: tanh_(t) / (ops.c(2) * t)
+        ls, ld_ = lam(os_), lam(od)
+
+        def kernel_expect(lin_coef, const):
+            """E_p[z_1^2 exp(-ls h^2 + lin_coef h + const)]"""
+            Ak = ops.zeros((Dx, Dx)); ak = ops.zeros((Dx,))
+            for i in range(Dx):
+                ak[i] = (lin_coef - ops.c(2) * ls * b0) * w[i]
+                for j in range(Dx):
+                    Ak[i, j] = ops.c(2) * ls * w[i] * w[j]
+            c_ = -ls * b0 * b0 + lin_coef * b0 + const
+            mass, tm = tilted(ops, m, S, Ak, ak, c_)
+            return mass * tm.expect(spec.p_mul(zp[0], zp[0]))
+        base = ls * os_ * os_ - f(os_)
+        if link == "exp":
+            het = kernel_expect(half, base)
+            ldet = ops.lnabs(dA * dA) + half * Eh + f(od) + ld_ * (Eh2 - od * od)
+        else:
+            ln2 = ops.log(ops.c(2))
+            het = kernel_expect(ops.one(), base - ln2) + kernel_expect(-ops.one(), base - ln2) - kernel_expect(ops.zero(), base)
+            ldet = ops.lnabs(dA * dA) + f(od) + ld_ * (Eh2 - od * od)
+        want = -half * (hom - het) - half * ldet - ops.c(Fraction(Dy, 2)) * ops.ln2pi()
+        return [(f"{link} link: integrate_log_conditional_y = E_p[g], g a pointwise minorant of ln p(y|x) (Jaakkola-Jordan lemma; arbitrary variational parameters)", O["val"], np.array([want], dtype=object))]
+
+    return Case(cid, PROP, cfg, declare, fn, claims, timeout=timeout, sat_note=WITNESS_NOTE)
+
+
+def _smooth_truth_quad(I, link, Dx, Dy):
+    """E_{N(x; m, S)}[ln N(y; M x + b, AA' + a_1 a_1' link(w'x + w0))] by adaptive quadrature (Dx=1) / Gauss-Hermite (Dx=2)"""
+    import math
+    M, bb, A_ = np.asarray(I["M"][0], float), np.asarray(I["bv"][0], float), np.asarray(I["A"][0], float)
+    y = np.asarray(I["y"][0], float)
+    W = np.asarray(I["W"][0], float)
+    m, S = np.asarray(I["mx"][0], float), np.asarray(I["Sx"][0], float)
+    AAt = A_ @ A_.T
+    a1 = A_[:, 0]
+
+    def lp(x):
+        h = float(W[1:] @ x + W[0])
+        d = math.exp(h) if link == "exp" else math.cosh(h) - 1.0
+        Sg = AAt + d * np.outer(a1, a1)
+        r = y - M @ x - bb
+        sign, ld = np.linalg.slogdet(Sg)
+        return -0.5 * r @ np.linalg.solve(Sg, r) - 0.5 * ld - 0.5 * Dy * math.log(2 * math.pi)
+    if Dx == 1:
+        from scipy import integrate
+        s = math.sqrt(S[0, 0])
+        f = lambda x: lp(np.array([x])) * math.exp(-0.5 * ((x - m[0]) / s) ** 2) / (s * math.sqrt(2 * math.pi))
+        return integrate.quad(f, m[0] - 12 * s, m[0] + 12 * s, points=[m[0]], epsabs=1e-12, epsrel=1e-11, limit=400)[0]
+    L = np.linalg.cholesky(S)
+    xs, ws = np.polynomial.hermite_e.hermegauss(80)
+    ws = ws / math.sqrt(2 * math.pi)
+    tot = 0.0
+    for i, (u, wu) in enumerate(zip(xs, ws)):
+        for v, wv in zip(xs, ws):
+            tot += wu * wv * lp(m + L @ np.array([u, v]))
+    return tot
+
+
 def _link_value(ops, link, h):
     if link == "exp":
         return ops.exp(h)
@@ -352,6 +591,12 @@ def cases(tier, seed=0):
         for wsign in (1, -1):
             out.append(step_equality_case(Dy, wsign))
     out.append(step_equality_case(1, 1, N=2)); out.append(step_equality_case(2, -1, N=2))
+    for Dy in (1, 2):
+        for wsign in (1, -1):
+            out.append(relu_minorant_case(Dy, wsign))
+    for link in ("exp", "cosh"):
+        for (Dx, Dy) in ((1, 1), (1, 2), (2, 1)):
+            out.append(jj_minorant_case(link, Dx, Dy))
     for link in ("exp", "cosh"):
         for (Dx, Dy, Dk) in ((1, 1, 1), (2, 2, 1), (1, 2, 2)):
             for signs in itertools.product((1, -1), repeat=Dk):
